@@ -364,6 +364,16 @@ func Run(r *ev.Run) {
 		}
 		j.Begin(key)
 		defer j.End()
+		// recursion that does not descend into the instance is outside the domain (and
+		// would overflow the stack): ask the oracle first
+		if u, err := ref.NewUniverse(d, "", nil, nil); err == nil && u.Closure() == nil {
+			for _, in := range pool {
+				if u.Validate(in.Val).Loop {
+					r.Add("skipped_non_descending_recursion", 1)
+					return
+				}
+			}
+		}
 		var s jsonschema.Schema
 		if err := json.Unmarshal([]byte(d), &s); err != nil {
 			return // not a document Unmarshal accepts
